@@ -362,3 +362,104 @@ def _is_attr_base(tree, name_node):
         if isinstance(n, ast.Attribute) and n.value is name_node:
             return True
     return False
+
+
+# ---------------------------------------------------------------------------------------------- path conditions as formulas
+# A path condition is a conjunction of (test, polarity) pairs whose tests are boolean combinations of opaque atoms.
+# ``not (a and b)`` says less than ``not b``: whether a goal literal follows is decided over the formulas (truth table
+# over the atoms -- a finite abstract domain; nothing of the analysed program is evaluated).
+_NEG_OPS = {ast.IsNot: ast.Is, ast.NotEq: ast.Eq, ast.NotIn: ast.In}
+MAX_ATOMS = 14
+
+
+def _formula(e, atoms):
+    """Nested tuples ('atom', text) / ('const', bool) / ('not', f) / ('and', [f..]) / ('or', [f..]) for the truth value of
+    expression ``e``; the atom texts are collected in ``atoms``."""
+    if isinstance(e, ast.UnaryOp) and isinstance(e.op, ast.Not):
+        return ('not', _formula(e.operand, atoms))
+    if isinstance(e, ast.BoolOp):
+        return ('and' if isinstance(e.op, ast.And) else 'or', [_formula(v, atoms) for v in e.values])
+    if isinstance(e, ast.Constant):
+        return ('const', bool(e.value))
+    if isinstance(e, ast.Call) and isinstance(e.func, ast.Name) and e.func.id == 'bool' and len(e.args) == 1 and not e.keywords:
+        return _formula(e.args[0], atoms)
+    if isinstance(e, ast.IfExp):
+        c = _formula(e.test, atoms)
+        return ('or', [('and', [c, _formula(e.body, atoms)]), ('and', [('not', c), _formula(e.orelse, atoms)])])
+    if isinstance(e, ast.Compare) and len(e.ops) == 1 and type(e.ops[0]) in _NEG_OPS:
+        pos = ast.Compare(left=e.left, ops=[_NEG_OPS[type(e.ops[0])]()], comparators=e.comparators)
+        return ('not', _formula(pos, atoms))
+    text = norm(e)
+    atoms.add(text)
+    return ('atom', text)
+
+
+def _holds(f, env):
+    k = f[0]
+    if k == 'atom':
+        return env[f[1]]
+    if k == 'const':
+        return f[1]
+    if k == 'not':
+        return not _holds(f[1], env)
+    if k == 'and':
+        return all(_holds(x, env) for x in f[1])
+    return any(_holds(x, env) for x in f[1])
+
+
+def prop_entails(conds, goal, goal_pol=True):
+    """Do the path conditions ``conds`` ([(test, polarity)]) entail that expression ``goal`` has truth value ``goal_pol``?
+    -> (True, None), or (False, {atom text: bool}) with an assignment of the atoms that satisfies every condition and
+    falsifies the goal.  Atoms are opaque expression texts, except that ``x is None`` being true makes ``x`` false.
+    Raises ValueError when there are too many atoms to decide."""
+    import itertools
+    atoms = set()
+    g = _formula(goal, atoms)
+    if not goal_pol:
+        g = ('not', g)
+    cand = []
+    for t, p in conds:
+        own = set()
+        f = _formula(t, own)
+        cand.append((f if p else ('not', f), own))
+    # only the conditions connected with the goal through shared atoms matter (dropping premises is sound)
+    prem = []
+    grown = True
+    while grown:
+        grown = False
+        for item in list(cand):
+            f, own = item
+            if not own or own & atoms:          # (a constant condition -- ``if False:`` -- is kept: it may make the path dead)
+                prem.append(f)
+                atoms |= own
+                cand.remove(item)
+                grown = True
+    names = sorted(atoms)
+    if len(names) > MAX_ATOMS:
+        raise ValueError('%d atoms in the path condition' % len(names))
+    none_of = [(a, a[:-len(' is None')]) for a in names if a.endswith(' is None') and a[:-len(' is None')] in atoms]
+    for vals in itertools.product((True, False), repeat=len(names)):
+        env = dict(zip(names, vals))
+        if any(env[a] and env[x] for a, x in none_of):
+            continue
+        if all(_holds(f, env) for f in prem) and not _holds(g, env):
+            return False, env
+    return True, None
+
+
+def short_circuit_conds(mod, node):
+    """[(test, polarity)] established by the expression context of ``node`` inside its own statement: the earlier operands of
+    an enclosing ``and`` (true) / ``or`` (false), the test of an enclosing conditional expression."""
+    out = []
+    cur = node
+    while True:
+        par = mod.parents.get(cur)
+        if par is None or isinstance(par, (ast.stmt, ast.Lambda, ast.ListComp, ast.SetComp, ast.DictComp, ast.GeneratorExp)):
+            return out
+        if isinstance(par, ast.BoolOp):
+            idx = [i for i, v in enumerate(par.values) if v is cur]
+            if idx:
+                out.extend((v, isinstance(par.op, ast.And)) for v in par.values[:idx[0]])
+        elif isinstance(par, ast.IfExp) and cur is not par.test:
+            out.append((par.test, cur is par.body))
+        cur = par
